@@ -59,6 +59,7 @@ def run(chk):
     chk.traces += n[0]
     chk.part("A_replay", sequences=n[0], runs=runs, exhaustive=True)
     macros_part(chk, vh, os.path.join(wd, "seq-0.ndjson"))
+    std_part(chk, vh, wd, shards)
     # B
     wd = vlib.workdir("c08-b")
     traces = []
@@ -126,7 +127,53 @@ def macros_part(chk, vh, cases_path):
     chk.part("A_macros", calls=n, texts=len(texts))
 
 
+def std_part(chk, vh, wd, shards):
+    """TLC-generated operation sequences that contain `lock`, on the REAL standard streams (AutoStream<Stdout|Stderr>,
+    pipes read here): the locked stream must continue with the mode and the carried scanner state of the unlocked one."""
+    import subprocess
+    cases = []
+    for i in range(shards):
+        for l in open(os.path.join(wd, "seq-%d.ndjson" % i)):
+            if '"lock"' in l:
+                cases.append(l)
+    if len(cases) > 6000:
+        cases = cases[::len(cases) // 6000 + 1]
+    sub = os.path.join(wd, "std-cases.ndjson")
+    open(sub, "w").write("".join(cases))
+    objs = [json.loads(l) for l in cases]
+    base_env = {k: v for k, v in os.environ.items() if k not in ("NO_COLOR", "CLICOLOR", "CLICOLOR_FORCE", "CI")}
+    n = 0
+    for stream in ("stdout", "stderr"):
+        for choice, key in (("Never", "strip"), ("AlwaysAnsi", "pass")):
+            r = subprocess.run([vh, "std-replay", sub, stream, choice], stdout=subprocess.PIPE, stderr=subprocess.PIPE, env=base_env, timeout=1200)
+            if r.returncode != 0:
+                raise vlib.ToolError("std-replay %s %s failed: %s" % (stream, choice, (r.stderr if stream == "stdout" else r.stdout).decode(errors="replace")[-600:]))
+            data = r.stdout if stream == "stdout" else r.stderr
+            parts = data.split(b"\n@@SEP@@\n")[:-1]
+            if len(parts) != len(objs):
+                raise vlib.ToolError("std-replay %s %s: %d outputs for %d cases" % (stream, choice, len(parts), len(objs)))
+            for c, got in zip(objs, parts):
+                n += 1
+                exp = bytes(c[key])
+                if got != exp:
+                    chk.violation("AutoStream<%s>(%s) with lock(): ops %s wrote %r, specification expects %r" % (stream, choice, json.dumps(c["ops"])[:200], got, exp),
+                                  {"kind": "std-lock", "stream": stream, "choice": choice, "ops": c["ops"], "observed": list(got), "expected": list(exp)})
+    chk.evaluations += n
+    chk.traces += len(objs)
+    chk.part("A_std_streams_with_lock", sequences=len(objs), runs=n)
+
+
 def replay(obj):
+    if obj.get("kind") == "std-lock":
+        import subprocess
+        vh = vlib.build_harness("vh")
+        wd = vlib.workdir("replay")
+        p = os.path.join(wd, "c.ndjson")
+        vlib.write_lines(p, [{"ops": obj["ops"]}])
+        r = subprocess.run([vh, "std-replay", p, obj["stream"], obj["choice"]], stdout=subprocess.PIPE, stderr=subprocess.PIPE)
+        data = (r.stdout if obj["stream"] == "stdout" else r.stderr).split(b"\n@@SEP@@\n")[0]
+        print("ops", json.dumps(obj["ops"]), "\nwrote   ", data, "\nexpected", bytes(obj["expected"]))
+        return 0 if data == bytes(obj["expected"]) else 1
     if obj.get("kind") == "macro":
         print(json.dumps(obj)[:2000])
         return 1
